@@ -1,7 +1,5 @@
 -- Root of the `GeoVerif` library: models (import-free), lemma files (single-module Mathlib imports),
 -- property theorems.  `Generated/*` is written by tools/extract.py and imported by the property files that use it.
-import GeoVerif.Lemmas.Annuity
-import GeoVerif.Lemmas.Bicycle
 import GeoVerif.Lemmas.C04
 import GeoVerif.Lemmas.C05
 import GeoVerif.Lemmas.C07
@@ -13,3 +11,4 @@ import GeoVerif.Lemmas.C13
 import GeoVerif.Lemmas.C14
 import GeoVerif.Lemmas.C15
 import GeoVerif.Lemmas.C16
+import GeoVerif.Lemmas.Series
